@@ -11,4 +11,8 @@ import glob, json, os
 
 PROPS = {}
 for _f in sorted(glob.glob(os.path.join(os.path.dirname(os.path.abspath(__file__)), "props.d", "*.json"))):
-    PROPS[os.path.basename(_f)[:-5]] = json.load(open(_f))
+    try:
+        PROPS[os.path.basename(_f)[:-5]] = json.load(open(_f))
+    except Exception as _e:  # a plan being edited must not break the other checks
+        import sys
+        print("props: skipping %s: %s" % (_f, _e), file=sys.stderr)
